@@ -364,6 +364,9 @@ func (b *Builder) globalScaffold(g *am.Global) {
 		gl.Comdat = b.comdat[g.Comdat]
 	}
 	gl.Align = ir.Align(g.Align)
+	for _, a := range g.Attrs {
+		gl.FuncAttrs = append(gl.FuncAttrs, b.funcAttr(a))
+	}
 	b.globs[g] = gl
 }
 
